@@ -5,7 +5,7 @@ V = os.path.dirname(os.path.dirname(os.path.abspath(__file__)))
 d = json.load(open(os.path.join(V, "known_findings.json")))
 rows = {}
 for f in d["findings"]:
-    key = (f["property"], f.get("commit", "-"), f["status"])
+    key = (f["property"], f.get("commit", "-") if f["status"] == "fixed" else f["description"][:60], f["status"])
     rows.setdefault(key, {"sigs": [], "desc": f["description"]})
     rows[key]["sigs"].append(f["signature"])
 fixed = ["| prop | commit | what failed (witness) | check signature(s) |", "|---|---|---|---|"]
